@@ -46,6 +46,8 @@ def cases(draw, max_n):
         # list) of labels that are restored again, via restore_ind_ or via a copy
         "restore": draw(st.lists(st.integers(0, 3), max_size=2, unique=True)) if removed and draw(st.integers(0, 2)) == 0 else [],
         "restore_via_copy": draw(st.booleans()),
+        # number of emulated MPI ranks for the contract_mpi route (0 = skip)
+        "mpi_size": draw(st.sampled_from([0, 0, 1, 2, 3, 4, 5, 6, 7])),
     }
 
 
@@ -214,6 +216,43 @@ def run_case(spec, sub=None):
                 if full_p.size and not np.all(np.abs(val.reshape(full_p.shape) - full_p) <= tol):
                     viol.append("contract(strip_exponent=True): mantissa x 10**exponent differs from the reference")
 
+    # (4b) the MPI route: every rank sums its share of the slices and the
+    # shares are reduced; emulated with a harness-owned communicator, one rank
+    # after the other (only defined when no sliced label is an output label)
+    if not viol and sliced and not any(ix in output for ix, _ in removed) and spec.get("mpi_size"):
+        size_ = 1 + (spec["mpi_size"] - 1) % max(1, min(nsl, 7))
+
+        class Comm:
+            def __init__(self, rank):
+                self.rank, self.size, self.sent = rank, size_, None
+
+            def Allreduce(self, sendbuf, recvbuf):
+                self.sent = np.array(sendbuf, copy=True)
+                recvbuf[...] = 0
+
+            def Reduce(self, sendbuf, recvbuf, root=0):
+                self.sent = np.array(sendbuf, copy=True)
+
+        total, okall = None, True
+        for rank in range(size_):
+            comm = Comm(rank)
+            ok, g = guarded(tree.contract_mpi, arrays, comm=comm, **kw)
+            if not ok:
+                viol.append(f"contract_mpi(rank {rank} of {size_}) raised {g}")
+                okall = False
+                break
+            if comm.sent is None:
+                viol.append(f"contract_mpi(rank {rank} of {size_}) never reduced its share")
+                okall = False
+                break
+            total = comm.sent if total is None else total + comm.sent
+        if okall:
+            # (the buffers handed to the reduction are at least 1-d: a scalar
+            # result arrives with shape (1,))
+            if total.shape == (1,) and tuple(full.shape) == ():
+                total = total.reshape(())
+            cmp_full(total, f"contract_mpi over {size_} ranks (shares summed)")
+
     # (5) full contract
     if not viol:
         ok, g = guarded(tree.contract, arrays, **kw)
@@ -230,6 +269,8 @@ def run_case(spec, sub=None):
         tags.append("projected")
     if back:
         tags.append("some_restored")
+    if spec.get("mpi_size") and sliced and not any(ix in output for ix, _ in removed):
+        tags.append("mpi_route")
     if has_out:
         tags.append("output_removed")
     if any(ix not in output for ix, _ in removed):
